@@ -131,7 +131,7 @@ func newStoreWith(chain []*vhdr.Header, lo, hi int) *store.Store[*vhdr.Header] {
 		panic(err)
 	}
 	ctx := context.Background()
-	if err := st.Start(ctx); err != nil {
+	if err := func() error { sc, end := startCtx(); defer end(); return st.Start(sc) }(); err != nil {
 		panic(err)
 	}
 	if hi >= lo && lo >= 1 {
